@@ -64,7 +64,11 @@ func reuseSCION(recycle bool) *reusable {
 	if recycle {
 		s.RecyclePaths()
 	}
-	return &reusable{lay: "Hdr.LScion",
+	lay := "Hdr.LScion"
+	if recycle {
+		lay = "Hdr.LScionR"
+	}
+	return &reusable{lay: lay,
 		decode: func(bs []byte) (any, []byte, error) {
 			if err := s.DecodeFromBytes(bs, nofb); err != nil {
 				return nil, nil, err
@@ -225,8 +229,8 @@ func (rn *runner) sequences(rng *vgen.Rand) {
 				case m == 9:
 					bs, how = r.Bytes(r.Intn(rn.maxBytes)), "seq-random"
 				}
-				if sk.recycle && len(bs) > 8 {
-					bs[8] &= 3
+				if sk.recycle && len(bs) > 8 && r.Chance(1, 3) { // unregistered types are kept opaque
+					bs[8] = vgen.Pick[byte](r, 4, 4, 5, 255, byte(r.Intn(256)))
 				}
 				rn.decCaseR(ru.lay, ru.id, bs, how+":"+sk.name, isLen, ru)
 			}
@@ -279,6 +283,94 @@ func (rn *runner) extBoundaries(rng *vgen.Rand) {
 					rn.decCase(lay, 0, hb[:cut], "boundary-extlen-truncated", true)
 				}
 			}
+		}
+	}
+}
+
+// pathTypeSweep: every value of the PathType byte, on fresh layers (strict: 4..255 rejected) and
+// on ONE recycling layer reused for the whole sweep (4..255 kept as opaque paths).
+func (rn *runner) pathTypeSweep(rng *vgen.Rand) {
+	saved := rn.maxHops
+	rn.maxHops = 2
+	defer func() { rn.maxHops = saved }()
+	ru := reuseSCION(true)
+	step := 1
+	if rn.run.Tier != "thorough" {
+		step = 3 // 0,3,6,...; 1,2,4,5 are added below
+	}
+	var types []int
+	for t := 0; t < 256; t += step {
+		types = append(types, t)
+	}
+	if step != 1 {
+		types = append(types, 1, 2, 4, 5, 7, 254)
+	}
+	for i, t := range types {
+		r := rng.Fork(uint64(7_000_000 + i))
+		var bs []byte
+		for try := 0; try < 20 && bs == nil; try++ {
+			v := genSCION(r, 2, false, 3)
+			payload := r.Bytes(3)
+			if hb, err := ser(v, false, payload); err == nil && len(hb) > 12 {
+				bs = append(hb, payload...)
+			}
+		}
+		if bs == nil {
+			bs = make([]byte, 40)
+		}
+		bs[8] = byte(t)
+		rn.decCaseR(ru.lay, 0, bs, "pathtype-recycled", true, ru)
+		rn.decCase("Hdr.LScion", 0, bs, "pathtype-fresh", true)
+	}
+}
+
+// spaoSequences: Reset sequences (long / short authenticators alternating) on ONE reused
+// PacketAuthOption; after every Reset the option data must be what the last parameters alone give.
+func (rn *runner) spaoSequences(rng *vgen.Rand) {
+	run := rn.run
+	nSeq := run.Count(6, 300)
+	for j := 0; j < nSeq; j++ {
+		r := rng.Fork(uint64(6_000_000 + j))
+		var o slayers.PacketAuthOption
+		steps := r.Range(4, 6)
+		for st := 0; st < steps; st++ {
+			p := genSPAO(r)
+			if (st+j)%2 == 0 {
+				p.Auth = r.Bytes(r.Range(12, 24))
+			} else {
+				p.Auth = r.Bytes(r.Range(0, 5))
+			}
+			params := slayers.PacketAuthOptionParams{SPI: slayers.PacketAuthSPI(p.SPI),
+				Algorithm: slayers.PacketAuthAlg(p.Alg), TimestampSN: p.TS, Auth: p.Auth}
+			var bs []byte
+			var err error
+			var pmsg string
+			pan, msg := vgen.Recover(func() {
+				if st == 0 {
+					o, err = slayers.NewPacketAuthOption(params)
+				} else {
+					err = o.Reset(params)
+				}
+				if err == nil {
+					bs = append([]byte(nil), o.OptData...)
+				}
+			})
+			if pan {
+				pmsg = msg
+			}
+			if !run.Want() {
+				run.Skip()
+				continue
+			}
+			if pan {
+				desc := map[string]any{"dir": "enc", "layer": "Hdr.LSpao", "how": "reset-sequence", "value": term(p)}
+				run.Violate(run.Add("enc-Hdr.LSpao", "Hdr.CEnc false Hdr.HEmpty [] None None", term(p), false, desc),
+					"panic in PacketAuthOption.Reset: "+pmsg, desc)
+				continue
+			}
+			rn.serOverride = func() ([]byte, error) { return bs, err }
+			rn.encValue(p, false, nil)
+			rn.serOverride = nil
 		}
 	}
 }
